@@ -182,6 +182,55 @@ theorem tolmesh_msg_sound (o : Opts) (s : St) (out : Out) (h : (step o s out).c.
   have hlt : (mstep o s out).msi < o.tolExp := by simpa [coutOf] using hm
   exact zpow_lt_zpow_right₀ (by norm_num) hlt
 
+/-- two mesh states that differ at most in the overflow counter -/
+def SameMesh (m m' : MSt) : Prop := m.msi = m'.msi ∧ m.ssi = m'.ssi ∧ m.spree = m'.spree
+
+theorem meshLoopStart_same (o : Opts) (m m' : MSt) (h : SameMesh m m') : SameMesh (meshLoopStart o m) (meshLoopStart o m') := by
+  obtain ⟨h1, h2, h3⟩ := h
+  unfold meshLoopStart
+  split
+  · exact ⟨h1, by simp [h1], h3⟩
+  · exact ⟨h1, h2, h3⟩
+
+theorem meshSkip_same (o : Opts) (m m' : MSt) (h : SameMesh m m') : SameMesh (meshSkip o m) (meshSkip o m') := by
+  obtain ⟨h1, h2, h3⟩ := h
+  unfold meshSkip
+  refine ⟨?_, h2, by simp [h3]⟩
+  simp only [h1, h3]
+
+theorem pollMesh_same (o : Opts) (m m' : MSt) (it : Nat) (good stall : Bool) (h : SameMesh m m') :
+    SameMesh (pollMesh o m it good stall) (pollMesh o m' it good stall) := by
+  obtain ⟨h1, h2, h3⟩ := h
+  unfold pollMesh
+  split
+  · exact ⟨by simp [h1], h2, h3⟩
+  · exact ⟨by simp [h1], by simp [h1, h2], h3⟩
+
+/-- THE OVERFLOW COUNTER IS BOOKKEEPING ONLY: how often the mesh has already tried to grow beyond its cap (the count behind the
+    `bads:meshOverflow` warning) has no influence on the mesh exponents - a successful poll below the cap doubles the mesh whether or not
+    the warning was issued before. -/
+theorem mesh_ignores_overflow_count (o : Opts) (s : St) (out : Out) (k : Nat) :
+    (mstep o { s with m := { s.m with overflows := k } } out).msi = (mstep o s out).msi ∧
+    (mstep o { s with m := { s.m with overflows := k } } out).ssi = (mstep o s out).ssi := by
+  have h0 : SameMesh { s.m with overflows := k } s.m := ⟨rfl, rfl, rfl⟩
+  have h1 := meshLoopStart_same o _ _ h0
+  have key : SameMesh (mstep o { s with m := { s.m with overflows := k } } out) (mstep o s out) := by
+    unfold mstep
+    simp only
+    split
+    · apply pollMesh_same
+      split
+      · exact meshSkip_same o _ _ h1
+      · split
+        · exact ⟨h1.1, h1.2.1, rfl⟩
+        · exact h1
+    · split
+      · exact meshSkip_same o _ _ h1
+      · split
+        · exact ⟨h1.1, h1.2.1, rfl⟩
+        · exact h1
+  exact ⟨key.1, key.2.1⟩
+
 /-! Non-vacuity: a poll with one sufficient improvement among three evaluations. -/
 example : pollGood (1/10) [0, 1/4, 1/8] 0 false = true ∧ pollGood (1/10) [1/20, -1] 0 false = false := by
   constructor <;> decide +kernel
